@@ -131,7 +131,7 @@ pub struct ConstCase {
 
 /// the variant history and, per base handle, the slot that holds it in the variant
 pub fn untracked_as_constants(base: &History) -> Option<(History, Vec<usize>, usize)> {
-    let mut m = refmodel::model::RefState::new(0);
+    let mut m = refmodel::model::RefState::forward_only();
     let mut out = vec![];
     let mut map: Vec<usize> = vec![];
     let mut nslots = 0usize;
